@@ -874,7 +874,7 @@ def check_dependent_product(case, node, v, err, rep, inp):
     a, b = top.kids
     if err:
         rep.fail(f"volume() of a dependent product raised {err}", inp,
-                 finding="dependent_product_volume_rows" if distinct >= 2 else None)
+                 finding="dependent_product_volume_rows" if k >= 2 else None)
         return
     vals = v.reshape(-1).tolist()
     if not all(math.isfinite(x) and x > 0 for x in vals):
@@ -902,7 +902,7 @@ def check_dependent_product(case, node, v, err, rep, inp):
         what = (f"volume() of a dependent product: row {i} is {got:.6g}, but |A(b)|*|B| lies in [{lo:.6g}, {hi:.6g}] for every b "
                 f"(all rows: {[round(x, 4) for x in vals]}, shape {tuple(v.shape)})") if bad else \
                f"volume() of a dependent product returned shape {tuple(v.shape)} for {k} parameter rows, ({k}, 1) expected"
-        rep.fail(what, inp, finding="dependent_product_volume_rows" if distinct >= 2 else None)
+        rep.fail(what, inp, finding="dependent_product_volume_rows" if k >= 2 else None)
 
 
 def json_key(e):
